@@ -141,11 +141,17 @@ def run_tlc(scratch, spec_dirs, module, cfg, workers=None, timeout=600, simulate
     _stage(scratch, spec_dirs + [os.path.join(SPECS, "common")], extra_files)
     meta = os.path.join(scratch, "md-%s-%d" % (module, int(time.time() * 1000) % 1000000))
     java = ["java", "-XX:+UseParallelGC", "-Xss64m"]
-    if fast:   # short runs (trace validation, small models): JVM start-up dominates
-        java += ["-XX:ParallelGCThreads=2", "-XX:TieredStopAtLevel=1"]
+    # measured in this sandbox: a large young generation costs seconds of system time per GC cycle
+    # (page faults are expensive in the VM); a small fixed young generation is 3-8x faster
+    if fast == "tiny":   # very short runs: JVM start-up dominates
+        java += ["-XX:ParallelGCThreads=2", "-XX:TieredStopAtLevel=1", "-Xmn128m"]
+        heap = heap or "3g"
+    elif fast:
+        java += ["-XX:ParallelGCThreads=2", "-Xmn128m"]
         heap = heap or "4g"
     else:
-        java += ["-XX:ParallelGCThreads=8"]
+        java += ["-XX:ParallelGCThreads=4", "-Xmn512m"]
+        heap = heap or "12g"
     if heap:
         java.append("-Xmx" + heap)
     if dfs:
@@ -247,7 +253,7 @@ def validate_trace(scratch, spec_dirs, module, cfg, trace_path, timeout=900, tra
             if line.strip():
                 total += 1
     r = run_tlc(scratch, spec_dirs, module, cfg, workers=1, timeout=timeout, deadlock=False,
-                extra_files=[(trace_path, trace_name)], heap=heap, fast=(total < 200000))
+                extra_files=[(trace_path, trace_name)], heap=heap, fast=("tiny" if total < 20000 else True))
     if r.error:
         raise Inconclusive("TLC error in trace validation %s: %s" % (module, r.error))
     matched = None
